@@ -725,6 +725,7 @@ func (obj *SparseFloat64MatrixJointIterator) Ok() bool {
          !(obj.s2 == nil || obj.s2.GetFloat64() == float64(0))
 }
 func (obj *SparseFloat64MatrixJointIterator) Next() {
+next:
   ok1 := obj.it1.Ok()
   ok2 := obj.it2.Ok()
   obj.s1.ptr = nil
@@ -744,6 +745,8 @@ func (obj *SparseFloat64MatrixJointIterator) Next() {
       obj.s2 = obj.it2.GetConst()
     }
   }
+  // true if at least one iterator is advanced below
+  advanced := obj.s1.ptr != nil || obj.s2 != nil
   if obj.s1.ptr != nil {
     obj.it1.Next()
   }
@@ -751,6 +754,11 @@ func (obj *SparseFloat64MatrixJointIterator) Next() {
     obj.it2.Next()
   } else {
     obj.s2 = ConstFloat64(0.0)
+  }
+  // skip positions where all elements are zero, stop only when
+  // all iterators are exhausted
+  if !obj.Ok() && advanced {
+    goto next
   }
 }
 func (obj *SparseFloat64MatrixJointIterator) Get() (Scalar, ConstScalar) {
@@ -806,6 +814,7 @@ func (obj *SparseFloat64MatrixJoint3Iterator) Ok() bool {
          !(obj.s3 == nil || obj.s3.GetFloat64() == 0.0)
 }
 func (obj *SparseFloat64MatrixJoint3Iterator) Next() {
+next:
   ok1 := obj.it1.Ok()
   ok2 := obj.it2.Ok()
   ok3 := obj.it3.Ok()
@@ -841,6 +850,8 @@ func (obj *SparseFloat64MatrixJoint3Iterator) Next() {
       obj.s3 = obj.it3.GetConst()
     }
   }
+  // true if at least one iterator is advanced below
+  advanced := obj.s1.ptr != nil || obj.s2 != nil || obj.s3 != nil
   if obj.s1.ptr != nil {
     obj.it1.Next()
   }
@@ -853,6 +864,11 @@ func (obj *SparseFloat64MatrixJoint3Iterator) Next() {
     obj.it3.Next()
   } else {
     obj.s3 = ConstFloat64(0.0)
+  }
+  // skip positions where all elements are zero, stop only when
+  // all iterators are exhausted
+  if !obj.Ok() && advanced {
+    goto next
   }
 }
 func (obj *SparseFloat64MatrixJoint3Iterator) Get() (Scalar, ConstScalar, ConstScalar) {
